@@ -498,6 +498,7 @@ let client_case (toks : string list) : string =
              | "b" -> push (now + 30) (`Resp (c, gen.(c), false))
              | "c" -> push (now + 15) (`Resp (c, gen.(c), false))
              | "e" -> push (now + 250) (`Resp (c, gen.(c), false))
+             | "g" -> push (now + timeout * 7 / 10) (`Resp (c, gen.(c), false))
              | "x" -> push (now + 1) (`Resp (c, gen.(c), true))
              | "l" -> push (now + timeout + 300) (`Resp (c, gen.(c), false))
              | _ -> ())
